@@ -947,6 +947,90 @@ def big_level(ctx, exe):
     return dict(fails=fails, runs=runs, bytes_per_session=sizes)
 
 
+
+# ---- bursts whose size is a "round" number: an interactive client writes complete frames and WAITS for the answer ----
+ALIGNED_SIZES = [256, 512, 1024, 2048, 4096, 8192, 16384, 32768, 65536, 131072]
+
+
+def aligned_burst(total, k=0):
+    """frames initialized + didOpen + hover + $/verif/text whose bytes add up to exactly `total` (padding inside a comment of the
+    document, non-ASCII included); None when `total` is too small"""
+    def build(pad):
+        text = "// \u00e9\u4e16\U0001F600 " + "x" * pad + "\nproc main() { }\n"
+        msgs = [note("initialized", {}),
+                note("textDocument/didOpen", {"textDocument": {"uri": URI, "languageId": "spl", "version": 1, "text": text}}),
+                req(2, "textDocument/hover", {"textDocument": {"uri": URI}, "position": {"line": 1, "character": 6}}),
+                req(3, "$/verif/text", {"uri": URI})]
+        return b"".join(lspclient.frame(m) for m in msgs), text
+    base, _ = build(0)
+    if len(base) > total:
+        return None
+    pad = total - len(base)
+    for _ in range(6):
+        data, text = build(pad)
+        if len(data) == total:
+            return data, text
+        pad -= len(data) - total
+        if pad < 0:
+            return None
+    return None
+
+
+def aligned_check(exe, total, timeout=12.0):
+    """initialize (answered), then ONE write of exactly `total` bytes of complete frames, nothing more until both requests are
+    answered; then shutdown / exit.  Returns a list of problems."""
+    ab = aligned_burst(total)
+    if ab is None:
+        return None
+    data, text = ab
+    s = lspclient.Server(exe)
+    problems = []
+    try:
+        r = s.request("initialize", {"processId": None, "rootUri": None, "capabilities": {}}, timeout=90.0)
+        if not isinstance(r, dict) or "result" not in r:
+            return ["initialize is not answered: %r" % (r,)]
+        time.sleep(0.05)        # the server has consumed everything so far and waits in read
+        s.send_raw(data)
+        for rid in (2, 3):
+            try:
+                a = s.wait_response(rid, timeout=timeout)
+            except queue.Empty:
+                a = "timeout"
+            if not isinstance(a, dict):
+                problems.append("request %d of a burst of exactly %d bytes (complete frames, one write) is not answered within %.0f s "
+                                "although nothing else is outstanding: %r" % (rid, total, timeout, a))
+                break
+            if rid == 3 and a.get("result") != text:
+                problems.append("$/verif/text does not return the document of the burst")
+        if not problems:
+            try:
+                _, code = s.shutdown_exit(timeout=10.0)
+            except queue.Empty:
+                code = "no answer to shutdown"
+            if code != 0:
+                problems.append("exit status %r after shutdown, exit" % (code,))
+        problems += list(s.frame_errors)
+    finally:
+        s.kill()
+    return problems
+
+
+def aligned_level(ctx, exe):
+    from concurrent.futures import ThreadPoolExecutor
+    sizes = [n for n in ALIGNED_SIZES if aligned_burst(n) is not None]
+    sizes += [n + d for n in (4096, 8192, 65536) for d in (-1, 1)] + [3 * 8192, 5 * 4096]
+    if ctx.thorough():
+        sizes += [k * 4096 for k in range(6, 40)] + [ctx.rng.randrange(600, 200000) for _ in range(30)]
+    with ThreadPoolExecutor(4) as ex:
+        res = list(ex.map(lambda n: aligned_check(exe, n), sizes))
+    fails = []
+    for n, p in zip(sizes, res):
+        if p:
+            again = [aligned_check(exe, n, timeout=30.0) for _ in range(2)]
+            if all(again):
+                fails.append(dict(what="an interactive session: " + p[0], aligned=n, problems=p[:3]))
+    return dict(fails=fails, sizes=sizes)
+
 # ----------------------------------------------------------------------------------------------
 
 def run(ctx):
@@ -973,7 +1057,11 @@ def run(ctx):
 
     big = big_level(ctx, exe)
     ctx.cov["big_frames"] = dict(runs=big["runs"], bytes_per_session=big["bytes_per_session"], failures=len(big["fails"]))
-    oracle_fails = (cl["fails"] if cl else []) + bl["fails"] + big["fails"]
+    al = aligned_level(ctx, exe)
+    ctx.cov["aligned_bursts"] = dict(sizes=al["sizes"], failures=len(al["fails"]),
+                                     rule="after initialize ONE write of exactly n bytes of complete frames (initialized, didOpen, hover, "
+                                          "$/verif/text), then the client waits: both requests must be answered without further input")
+    oracle_fails = (cl["fails"] if cl else []) + bl["fails"] + big["fails"] + al["fails"]
     for f in sorted(oracle_fails, key=lambda f: len(json.dumps(f)))[:3]:
         f = dict(f)
         f.update(kind="oracle", property="C19", encoding=ENCODING)
@@ -1063,6 +1151,11 @@ def replay(ctx, path):
     if "big" in r:
         exe, _ = common.build_server()
         problems, _ = big_check(exe, r["big"]["n_out"], r["big"]["n_in"], r.get("cuts") or [])
+        print("problems:", problems)
+        return 1 if problems else 0
+    if "aligned" in r:
+        exe, _ = common.build_server()
+        problems = aligned_check(exe, r["aligned"], timeout=30.0)
         print("problems:", problems)
         return 1 if problems else 0
     if "input" in r:  # binary level
